@@ -20,7 +20,9 @@ except Exception:  # noqa
 caught = sorted(k.split(":")[0] for k, v in res["checks"].items() if v["rc"] == 1)
 print(ID, M, "valid_seed", res.get("valid_seed"), "| caught by", caught or "NONE", "|", res.get("baseline_tail"))
 for k, v in res["checks"].items():
-    print("   ", k, "rc", v["rc"], f"{v['wall']}s", (v["lines"] or [""])[0][:160])
+    pref = [l for l in v["lines"] if "failing input" in l] or [l for l in v["lines"] if l.startswith("VIOLATION")] or v["lines"] or [""]
+    v["lines"] = pref + [l for l in v["lines"] if l not in pref]
+    print("   ", k, "rc", v["rc"], f"{v['wall']}s", v["lines"][0][:160])
 if res.get("valid_seed"):
     dst = VERIF / "seeded" / f"{ID}-{M}"
     dst.mkdir(parents=True, exist_ok=True)
